@@ -237,21 +237,7 @@ func completedJobs(cs *vrun.Case) map[string]time.Time {
 // stalled decides from the hook trace whether mrp was idling: many loop
 // iterations after the last job event without any state change.
 func idleLoops(trace []vrun.TraceRec, mrpPid int) int {
-	idle := 0
-	for i := len(trace) - 1; i >= 0; i-- {
-		t := trace[i]
-		if t.Proc != "mrp" || (mrpPid != 0 && t.Pid != mrpPid) {
-			continue
-		}
-		switch {
-		case t.Name == "loop:begin":
-			idle++
-		case strings.HasPrefix(t.Name, "meta:write") || strings.HasPrefix(t.Name, "runjob") ||
-			strings.HasPrefix(t.Name, "refresh:file") || strings.HasPrefix(t.Name, "local:"):
-			return idle
-		}
-	}
-	return idle
+	return vrun.IdleLoops(trace)
 }
 
 type crashOutcome struct {
